@@ -913,6 +913,16 @@ func (b *Builder) callTermAt(v ssa.Value, c *ssa.CallCommon, at ssa.Instruction,
 			return canonBin(&Term{Op: "bin", Name: "-", V: v, Args: []*Term{{Op: "len", Args: []*Term{args[0].Args[0]}}, args[0].Args[1]}})
 		}
 	}
+	if name == "builtin.len" && len(args) == 1 {
+		// len(make([]T, n, …)) is n, whatever was stored into it since
+		m := args[0]
+		if m.Op == "obj" && len(m.Args) > 0 {
+			m = m.Args[0]
+		}
+		if m.Op == "makeslice" && len(m.Args) >= 1 {
+			return m.Args[0]
+		}
+	}
 	if name == "builtin.len" || name == "builtin.cap" {
 		if name == "builtin.len" && len(args) == 1 && args[0].Op == "conv" && (args[0].Name == "[]byte" || args[0].Name == "[]uint8" || args[0].Name == "string") && len(args[0].Args) == 1 {
 			if tt := termType(args[0].Args[0]); tt != nil {
@@ -1311,6 +1321,7 @@ func (b *Builder) withHistory(base *Term, v ssa.Value, at ssa.Instruction, depth
 		return base
 	}
 	if h := b.history(v, at, depth); len(h) > 0 {
+		h = splitHashWrites(h)
 		return canonObj(&Term{Op: "obj", V: v, Args: append([]*Term{base}, h...)})
 	}
 	return base
@@ -1368,6 +1379,7 @@ func (b *Builder) objAt(v ssa.Value, at ssa.Instruction, depth int) *Term {
 	if len(h) == 0 {
 		return base
 	}
+	h = splitHashWrites(h)
 	if base.Op == "alloc" && base.Name == "math/big.Int" {
 		// a scratch big.Int that is set anew: what it held before does not matter (x.SetInt64(a); …; x.SetInt64(b))
 		for i := len(h) - 1; i > 0; i-- {
@@ -1409,6 +1421,30 @@ func (b *Builder) objAt(v ssa.Value, at ssa.Instruction, depth int) *Term {
 		}
 	}
 	return canonObj(&Term{Op: "obj", V: v, Args: append([]*Term{base}, h...)})
+}
+
+// splitHashWrites: a hash is a stream, so Write(a ‖ b ‖ c) is Write(a), Write(b), Write(c).
+func splitHashWrites(h []*Term) []*Term {
+	var out []*Term
+	changed := false
+	for _, e := range h {
+		inner, maybe := e, false
+		if e.Op == "maybe" && len(e.Args) == 1 {
+			inner, maybe = e.Args[0], true
+		}
+		if inner.Op == "call" && (inner.Name == "(hash.Hash).Write" || inner.Name == "(io.Writer).Write") && len(inner.Args) == 2 && inner.Args[0].Op == "self" && inner.Args[1].Op == "concat" && len(inner.Args[1].Args) > 1 && !maybe {
+			for _, part := range inner.Args[1].Args {
+				out = append(out, &Term{Op: "call", Name: inner.Name, V: inner.V, Args: []*Term{inner.Args[0], part}})
+			}
+			changed = true
+			continue
+		}
+		out = append(out, e)
+	}
+	if !changed {
+		return h
+	}
+	return out
 }
 
 // lengthLike: len(x), cap(x), or such a value plus / times non-negative constants.
